@@ -64,7 +64,7 @@ def extract(repo):
 # anchor fingerprints (DESIGN 2.3 F): a changed hash is not an alarm, it only raises the quick-tier budgets
 ANCHORS = {
     "nixio/file.py": {"can_write": "f9d83f6f3a8abb39", "can_read": "8085a456a43879f4", "FileMode": "1940d1e9fefb9a61",
-                      "map_file_mode": "8f33b4db03bd99d1", "__init__": "9566de7fd0a40144",
+                      "map_file_mode": "8f33b4db03bd99d1", "__init__": "42d3f1d700288f69", "open": "3441a486a5638756",
                       "_create_header": "3808df3bea0cbab3", "_check_header": "27be39356d1b8c0d",
                       "_set_id": "9ec423d5720a6e28", "_set_version": "a38d32450054e0f2",
                       "_set_format": "c78ee05a754014fc"},
@@ -1461,7 +1461,7 @@ def check_missing(ctx, case):
         os.remove(path)
     got, err = "ok", None
     try:
-        f = nixio.File.open(path, mode)
+        f = _open_in_mode(path, mode)
         f.close()
     except Exception as e:
         got, err = "refused", "%s: %s" % (type(e).__name__, str(e)[:80])
@@ -1487,6 +1487,208 @@ def check_missing(ctx, case):
     finally:
         if os.path.exists(path):
             os.remove(path)
+    return None
+
+
+# ---- existing paths in every condition they can be in ---------------------------------------
+
+HDF5_SIG = b"\x89HDF\r\n\x1a\n"
+# condition -> is it a NIX file of the library's version (the only thing 'r' / 'a' may open)
+PATH_CONDS = {
+    "nix": True,             # a populated NIX file
+    "nix-tail": True,        # the same with bytes appended behind the end of the HDF5 data
+    "symlink-nix": True,     # a symbolic link to a populated NIX file
+    "hdf5-other": False,     # an HDF5 file of some other application (groups, datasets, no header)
+    "hdf5-bare": False,      # an HDF5 file without any object
+    "text": False,           # not HDF5 at all
+    "binary": False,         # random bytes
+    "empty": False,          # zero bytes
+    "truncated": False,      # an interrupted copy of a NIX file: cut at the fraction / byte count given by the seed
+    "sig-only": False,       # the HDF5 signature followed by zeros
+    "no-sig": False,         # a NIX file whose signature bytes were wiped
+    "symlink-text": False,   # a symbolic link to a text file
+    "dir": False,            # an empty directory
+    "dir-full": False,       # a directory with files in it
+}
+PATH_MODES = ["r", "a", "w", "default", "default-init", "kw"]
+
+
+def build_small(path, seed):
+    """a small populated NIX file, deterministic in seed"""
+    nixio = _nix()
+    import numpy as np
+    r = random.Random("small/%s" % seed)
+    with patched(T_BUILD, idseed="small/%s" % seed):
+        f = nixio.File.open(path, nixio.FileMode.Overwrite)
+        try:
+            for i in range(r.randint(1, 2)):
+                b = f.create_block("blk%d" % i, "blk.t")
+                b.create_data_array("arr", "arr.t", data=np.arange(float(r.randint(50, 900))), label="L")
+            s = f.create_section("sec", "meta.t")
+            s.create_property("p", [1, 2, 3])
+        finally:
+            f.close()
+
+
+def make_path(ctx, cond, seed):
+    """put a path into the named condition; returns (path, the file whose bytes are at stake)"""
+    import h5py
+    r = random.Random("path/%s/%s" % (cond, seed))
+    # the name itself varies too: blanks and non-ASCII characters (File.__init__ encodes the path)
+    stem = r.choice(["p", "p q", "päß", "p.nix.bak"]) + "-%d" % ctx.rng.getrandbits(40)
+    path = ctx.tmpfile(stem + ".nix")
+    target = path
+    if cond.startswith("symlink-"):
+        target = ctx.tmpfile(stem + ".target")
+    if cond in ("nix", "nix-tail", "symlink-nix", "truncated", "no-sig"):
+        build_small(target, seed)
+        size = os.path.getsize(target)
+        if cond == "nix-tail":
+            with open(target, "ab") as fd:
+                fd.write(b"trailing bytes " * r.randint(1, 40))
+        elif cond == "truncated":
+            k = r.choice([0.05, 0.25, 0.5, 0.75, 0.9, 0.99, 8, 9, 96, 512, 2048, -1, -8, r.random()])
+            n = int(k * size) if isinstance(k, float) else (size + k if k < 0 else min(k, size - 1))
+            with open(target, "r+b") as fd:
+                fd.truncate(max(1, n))
+        elif cond == "no-sig":
+            with open(target, "r+b") as fd:
+                fd.write(b"\0" * 8)
+    elif cond == "hdf5-other":
+        with h5py.File(target, "w") as h:
+            h.create_dataset("x", data=list(range(r.randint(1, 50))))
+            h.create_group("data").create_group("blk")
+            h.attrs["creator"] = "someone else"
+    elif cond == "hdf5-bare":
+        h5py.File(target, "w").close()
+    elif cond in ("text", "symlink-text"):
+        with open(target, "wb") as fd:
+            fd.write(b"recording notes, not a NIX file\n" * r.randint(1, 60))
+    elif cond == "binary":
+        with open(target, "wb") as fd:
+            fd.write(bytes(r.getrandbits(8) for _ in range(r.choice([1, 7, 8, 100, 4096]))))
+    elif cond == "empty":
+        open(target, "wb").close()
+    elif cond == "sig-only":
+        with open(target, "wb") as fd:
+            fd.write(HDF5_SIG + b"\0" * r.choice([0, 1, 88, 1000]))
+    elif cond in ("dir", "dir-full"):
+        os.makedirs(target)
+        if cond == "dir-full":
+            with open(os.path.join(target, "inner.nix"), "wb") as fd:
+                fd.write(b"inner")
+    else:
+        raise ValueError("harness: unknown path condition %r" % (cond,))
+    if target != path:
+        os.symlink(target, path)
+    return path, target
+
+
+def path_state(p):
+    """what is at a path, byte for byte"""
+    if os.path.islink(p):
+        return ["link", os.readlink(p), path_state(os.path.realpath(p))]
+    if os.path.isdir(p):
+        return ["dir", sorted([n, path_state(os.path.join(p, n))] for n in os.listdir(p))]
+    if os.path.isfile(p):
+        return ["file", os.path.getsize(p), sha_file(p)]
+    return None
+
+
+def _rm_path(p):
+    try:
+        if os.path.islink(p) or os.path.isfile(p):
+            os.remove(p)
+        elif os.path.isdir(p):
+            shutil.rmtree(p, ignore_errors=True)
+    except OSError:
+        pass
+
+
+def _open_in_mode(path, mode):
+    """the spellings of an open: explicit letter, no mode at all (= the default mode), keyword"""
+    nixio = _nix()
+    if mode == "default":
+        return nixio.File.open(path)
+    if mode == "default-init":
+        return nixio.File(path)
+    if mode == "kw":
+        return nixio.File.open(path, mode=nixio.FileMode.ReadWrite)
+    return nixio.File.open(path, mode)
+
+
+def check_path(ctx, case):
+    """['path', condition, mode, seed] — open an EXISTING path that is in the given condition.  The property:
+    read-only never changes anything; the default read-write mode keeps what exists (it creates only a MISSING
+    file); whatever is not a NIX file is refused; only overwrite replaces what is there."""
+    _, cond, mode, seed = case
+    is_nix = PATH_CONDS[cond]
+    path, target = make_path(ctx, cond, seed)
+    eff = "a" if mode in ("default", "default-init", "kw") else mode
+    site = "nixio/file.py:File.__init__"
+    try:
+        before = path_state(path)
+        dig0 = dump(target, True) if is_nix else None
+        got, err, nent, hdr, writable, fmode = "ok", None, None, None, None, None
+        try:
+            with patched(T_SESSION):
+                f = _open_in_mode(path, mode)
+                try:
+                    fmode = f.mode
+                    nent = len(f.blocks) + len(f.sections)
+                    hdr = (f.format, tuple(int(x) for x in f.version), f.id)
+                    writable = f._h5file.mode != "r"
+                finally:
+                    f.close()
+        except Exception as e:
+            got, err = "refused", "%s: %s" % (type(e).__name__, str(e)[:80])
+            del e
+        gc.collect()
+        after = path_state(path)
+        obs = {"outcome": got, "error": err, "before": before, "after": after}
+        if eff in ("r", "a") and not is_nix:
+            if got != "refused":
+                return Failure("an existing path that does not hold a NIX file was opened (%s) instead of refused"
+                               % ("read-only" if eff == "r" else "read-write / default mode"), case, obs,
+                               "an error; the path keeps what it held", site)
+            if after != before:
+                return Failure("a refused %s open changed what the existing path holds"
+                               % ("read-only" if eff == "r" else "read-write / default mode"), case, obs,
+                               "bytes identical", site)
+        if eff in ("r", "a") and is_nix:
+            if got != "ok":
+                return Failure("an existing NIX file of the library's version was refused", case, obs, "opened", site)
+            if eff == "r" and after != before:
+                return Failure("a read-only session changed the bytes of the file", case, obs, "bytes identical",
+                               "nixio/file.py:map_file_mode")
+            if eff == "r" and writable:
+                return Failure("read-only mode yields a writable HDF5 handle", case, "h5py mode r+", "r",
+                               "nixio/file.py:map_file_mode")
+            if eff == "a":
+                dig1 = dump(target, True)
+                if dig1 != dig0 or nent == 0:
+                    return Failure("opening an existing NIX file in the read-write / default mode did not keep its "
+                                   "content", case, {"entities": nent, "after": dig1}, dig0, site)
+                if not writable or fmode != "a":
+                    return Failure("the read-write / default mode did not yield a writable read-write session", case,
+                                   {"File.mode": fmode, "writable": writable}, {"File.mode": "a", "writable": True}, site)
+        if eff == "w":
+            if cond.startswith("dir"):
+                # a directory cannot become a file: nothing is promised but that a refusal leaves it alone
+                if got == "refused" and after != before:
+                    return Failure("a refused overwrite changed the directory at the path", case, obs, "unchanged", site)
+            else:
+                if got != "ok":
+                    return Failure("overwrite of an existing file was refused", case, obs, "empty file, fresh header", site)
+                d1 = dump(target)
+                if nent != 0 or d1["content"] or hdr[0] != "nix" or hdr[1] != _lib_version() or not py_is_uuid(hdr[2]) \
+                        or (dig0 is not None and hdr[2] == dig0["header"]["id"]):
+                    return Failure("overwrite did not yield an empty file with a fresh header", case,
+                                   {"entities": nent, "header": list(map(str, hdr))}, "empty, fresh header", site)
+    finally:
+        _rm_path(path)
+        _rm_path(target)
+        gc.collect()
     return None
 
 
@@ -1638,6 +1840,8 @@ def check_case(ctx, case):
         return check_gate(ctx, case)
     if kind == "missing":
         return check_missing(ctx, case)
+    if kind == "path":
+        return check_path(ctx, case)
     if kind == "ro_call":
         return check_ro_call(ctx, case)
     if kind in ("ro_session", "ro_reads", "modes"):
@@ -1688,8 +1892,15 @@ def oracle(ctx, broken, hints):
                 cases.append(["gate", m, "nix", v, idv])
         cases.append(["gate", m, "hdf", [lx, ly, lz], VALID_ID])
         cases.append(["gate", m, None, [lx, ly, lz], VALID_ID])
-    for m in ("r", "a", "w"):
+    for m in ("r", "a", "w", "default", "default-init", "kw"):
         cases.append(["missing", m])
+    # an existing path in every condition x every mode (and spelling of the default mode)
+    for cond in PATH_CONDS:
+        for m in PATH_MODES:
+            cases.append(["path", cond, m, "f%d" % rng.getrandbits(24)])
+    for _ in range(300 if broken else B(ctx, 40, 600)):
+        cases.append(["path", rng.choice(list(PATH_CONDS) + ["truncated"] * 6), rng.choice(PATH_MODES),
+                      "g%d" % rng.getrandbits(32)])
     grid = version_grid(lib, broken or not ctx.quick())
     n = 1500 if broken else B(ctx, 250, 3000)
     for _ in range(n):
